@@ -74,11 +74,11 @@ impl AEADBodyCodec {
         Self::new(header, session, |s| s.decoder_key(), |s| s.decoder_nonce())
     }
 
-    fn encode_chunk(&mut self, src: &mut BytesMut, dst: &mut BytesMut, session: &mut dyn Session) -> Result<(), aead::Error> {
+    fn encode_chunk(&mut self, src: &mut BytesMut, dst: &mut BytesMut, session: &mut dyn Session, payload_limit: usize) -> Result<(), aead::Error> {
         let padding_length = self.next_padding_length();
         trace!("Encode payload; padding length={}", padding_length);
         let tag_size = self.auth.cipher.tag_size();
-        let encrypted_size = src.remaining().min(self.payload_limit - tag_size - self.chunk.size_bytes() - padding_length);
+        let encrypted_size = src.remaining().min(payload_limit - tag_size - self.chunk.size_bytes() - padding_length);
         let encrypted_size_bytes = self.encode_size(encrypted_size + padding_length + tag_size, session.chunk_nonce())?;
         dst.extend_from_slice(&encrypted_size_bytes);
         let mut payload_bytes = src.split_to(encrypted_size);
@@ -107,22 +107,52 @@ impl AEADBodyCodec {
 
     pub fn encode_payload(&mut self, mut src: BytesMut, dst: &mut BytesMut, session: &mut dyn Session) -> Result<(), aead::Error> {
         while src.has_remaining() {
-            self.encode_chunk(&mut src, dst, session)?;
+            self.encode_chunk(&mut src, dst, session, self.payload_limit)?;
         }
         Ok(())
     }
 
+    /// One datagram is one chunk: a payload that does not fit a chunk is refused, never truncated
     pub fn encode_packet(&mut self, mut src: BytesMut, dst: &mut BytesMut, session: &mut dyn Session) -> Result<(), aead::Error> {
-        self.encode_chunk(&mut src, dst, session)
+        const MAX_PADDING_LENGTH: usize = 63;
+        let packet_limit = u16::MAX as usize - self.auth.cipher.tag_size() - MAX_PADDING_LENGTH;
+        if src.remaining() > packet_limit {
+            return Err(aead::Error);
+        }
+        self.encode_chunk(&mut src, dst, session, u16::MAX as usize + self.chunk.size_bytes())
     }
 
+    /// One chunk is one datagram; waits (None) until the whole chunk has arrived
     pub fn decode_packet(&mut self, src: &mut BytesMut, session: &mut dyn Session) -> Result<Option<BytesMut>, aead::Error> {
-        let padding_length = self.next_padding_length();
-        let packet_length = self.decode_size(&mut src.split_to(self.chunk.size_bytes()), session.chunk_nonce())? - padding_length;
-        let mut packet_bytes = src.split_to(packet_length);
-        self.auth.open(&mut packet_bytes, session.decoder_nonce_mut())?;
-        src.advance(padding_length);
-        Ok(Some(packet_bytes))
+        loop {
+            match self.state {
+                DecodeState::Padding => {
+                    let padding = self.next_padding_length();
+                    self.state = DecodeState::Length(padding)
+                }
+                DecodeState::Length(padding) => {
+                    let size_bytes = self.chunk.size_bytes();
+                    if src.remaining() < size_bytes {
+                        return Ok(None);
+                    }
+                    let length = self.decode_size(&mut src.split_to(size_bytes), session.chunk_nonce())?;
+                    self.state = DecodeState::Body(padding, length)
+                }
+                DecodeState::Body(padding, length) => {
+                    if src.remaining() < length {
+                        return Ok(None);
+                    }
+                    if length < padding + self.auth.cipher.tag_size() {
+                        return Err(aead::Error);
+                    }
+                    let mut packet_bytes = src.split_to(length - padding);
+                    self.auth.open(&mut packet_bytes, session.decoder_nonce_mut())?;
+                    src.advance(padding);
+                    self.state = DecodeState::Padding;
+                    return Ok(Some(packet_bytes));
+                }
+            }
+        }
     }
 
     pub fn decode_payload(&mut self, src: &mut BytesMut, session: &mut dyn Session) -> Result<Option<BytesMut>, aead::Error> {
@@ -146,6 +176,9 @@ impl AEADBodyCodec {
                 DecodeState::Body(padding, length) => {
                     if src.remaining() < length {
                         break;
+                    }
+                    if length < padding + self.auth.cipher.tag_size() {
+                        return Err(aead::Error);
                     }
                     dst.reserve(length);
                     let mut payload_bytes = src.split_to(length - padding);
